@@ -74,22 +74,18 @@ fn c01_calldata_roundtrip() {
 // ---- simple stack arms ----
 vm_harness! {
     #[kani::unwind(9)]
-    fn c01_stack_arms() {
+    fn c01_push_arms() {
         let c: [i64; 2] = kani::any();
         let fb: u64 = kani::any();
         let mut t = mk_thread(
-            vec![
-                Instr::PushInt(1), Instr::PushFloat(0), Instr::PushBool(true), Instr::PushNil(2),
-                Instr::PushAddr(ProgramCounter(77)), Instr::Duplicate, Instr::Pop,
-                Instr::LoadOffset(-1), Instr::StoreOffset(2), Instr::StoreOffsetImm(0, 0), Instr::Stop,
-            ],
+            vec![norm(Instr::PushInt(1)), norm(Instr::PushFloat(0)), norm(Instr::PushBool(true)), norm(Instr::PushNil(2)),
+                 norm(Instr::PushAddr(ProgramCounter(77))), Instr::Stop],
             vec![c[0], c[1]],
             vec![f64::from_bits(fb)],
         );
+        t.value_stack = Vec::with_capacity(16);
         push_frame(&mut t, ValueTag::Int);
         let mut model = t.value_stack.clone();
-        let mut pc = 0u32;
-        // PushInt
         t.pc.0 = 0; assert!(t.step()); model.push(Value::from(c[1]));
         assert!(same_stack(&t.value_stack, &model) && t.pc.0 == 1, "PushInt pushes the indexed constant");
         t.pc.0 = 1; assert!(t.step()); model.push(Value(fb, ValueTag::Float));
@@ -100,15 +96,33 @@ vm_harness! {
         assert!(same_stack(&t.value_stack, &model), "PushNil(n) pushes n zero slots");
         t.pc.0 = 4; assert!(t.step()); model.push(Value(77, ValueTag::Addr));
         assert!(same_stack(&t.value_stack, &model), "PushAddr");
-        t.pc.0 = 5; assert!(t.step()); let top = *model.last().unwrap(); model.push(top);
+        assert!(t.error.is_none() && !t.done && t.pending_host_func.is_none());
+        kani::cover!(true, "req: reachable");
+        std::mem::forget(t);
+    }
+}
+vm_harness! {
+    #[kani::unwind(9)]
+    fn c01_stack_arms() {
+        let c: [i64; 2] = kani::any();
+        let mut t = mk_thread(
+            vec![norm(Instr::Duplicate), norm(Instr::Pop), norm(Instr::LoadOffset(-1)), norm(Instr::StoreOffset(2)),
+                 norm(Instr::StoreOffsetImm(0, 0)), Instr::Stop],
+            vec![c[0], c[1]],
+            vec![],
+        );
+        t.value_stack = Vec::with_capacity(16);
+        push_frame(&mut t, ValueTag::Int);
+        let mut model = t.value_stack.clone();
+        t.pc.0 = 0; assert!(t.step()); let top = *model.last().unwrap(); model.push(top);
         assert!(same_stack(&t.value_stack, &model), "Duplicate");
-        t.pc.0 = 6; assert!(t.step()); model.pop();
+        t.pc.0 = 1; assert!(t.step()); model.pop();
         assert!(same_stack(&t.value_stack, &model), "Pop");
-        t.pc.0 = 7; assert!(t.step()); let v = model[slot(-1)]; model.push(v);
+        t.pc.0 = 2; assert!(t.step()); let v = model[slot(-1)]; model.push(v);
         assert!(same_stack(&t.value_stack, &model), "LoadOffset reads base + n");
-        t.pc.0 = 8; assert!(t.step()); let v = model.pop().unwrap(); model[slot(2)] = v;
+        t.pc.0 = 3; assert!(t.step()); let v = model.pop().unwrap(); model[slot(2)] = v;
         assert!(same_stack(&t.value_stack, &model), "StoreOffset pops into base + n");
-        t.pc.0 = 9; assert!(t.step()); model[slot(0)] = Value::from(c[0]);
+        t.pc.0 = 4; assert!(t.step()); model[slot(0)] = Value::from(c[0]);
         assert!(same_stack(&t.value_stack, &model), "StoreOffsetImm stores the indexed constant");
         assert!(t.error.is_none() && !t.done && t.pending_host_func.is_none());
         kani::cover!(true, "req: reachable");
@@ -121,7 +135,7 @@ vm_harness! {
     #[kani::unwind(9)]
     fn c01_jumps() {
         let mut t = mk_thread(
-            vec![Instr::Jump(ProgramCounter(40)), Instr::JumpIf(ProgramCounter(50)), Instr::JumpIfFalse(ProgramCounter(60)), Instr::Stop],
+            vec![norm(Instr::Jump(ProgramCounter(40))), norm(Instr::JumpIf(ProgramCounter(50))), norm(Instr::JumpIfFalse(ProgramCounter(60))), Instr::Stop],
             vec![], vec![],
         );
         push_frame(&mut t, ValueTag::Int);
@@ -147,9 +161,9 @@ macro_rules! call_return_harness {
         vm_harness! {
             #[kani::unwind(9)]
             fn $name() {
-                let ret_instr = if $void { Instr::ReturnVoid } else { Instr::Return($nargs) };
+                let ret_instr = if $void { norm(Instr::ReturnVoid) } else { norm(Instr::Return($nargs)) };
                 let mut t = mk_thread(
-                    vec![Instr::Call(CallData::new($nargs, 2)), Instr::Stop, ret_instr, Instr::Stop],
+                    vec![norm(Instr::Call(CallData::new($nargs, 2))), Instr::Stop, ret_instr, Instr::Stop],
                     vec![], vec![],
                 );
                 push_frame(&mut t, ValueTag::Int);
@@ -195,7 +209,7 @@ vm_harness! {
     #[kani::unwind(9)]
     fn c01_call_func_obj() {
         // closure = struct [Addr, capture0, capture1]; CallFuncObj(nargs) pushes the captures as the first locals
-        let mut t = mk_thread(vec![Instr::CallFuncObj(1), Instr::Stop, Instr::Return(1), Instr::Stop], vec![], vec![]);
+        let mut t = mk_thread(vec![norm(Instr::CallFuncObj(1)), Instr::Stop, norm(Instr::Return(1)), Instr::Stop], vec![], vec![]);
         let caps: [u64; 2] = kani::any();
         let clo = StructObject::new(vec![Value(2, ValueTag::Addr), Value(caps[0], ValueTag::Int), Value(caps[1], ValueTag::Float)], &mut t);
         push_frame(&mut t, ValueTag::Int);
@@ -226,7 +240,7 @@ vm_harness! {
 vm_harness! {
     #[kani::unwind(9)]
     fn c11_stop_and_hostfunc() {
-        let mut t = mk_thread(vec![Instr::HostFunc(513), Instr::Stop], vec![], vec![]);
+        let mut t = mk_thread(vec![norm(Instr::HostFunc(513)), Instr::Stop], vec![], vec![]);
         push_frame(&mut t, ValueTag::Int);
         let a0 = sym_val(ValueTag::Int);
         let a1 = sym_val(ValueTag::Float);
@@ -262,7 +276,7 @@ vm_harness! {
 vm_harness! {
     #[kani::unwind(9)]
     fn c11_panic_reports_error_not_done() {
-        let mut t = mk_thread(vec![Instr::Panic, Instr::Stop], vec![], vec![]);
+        let mut t = mk_thread(vec![norm(Instr::Panic), Instr::Stop], vec![], vec![]);
         let msg = mk_string(&mut t, [b'o', b'h', b'!'], 3);
         push_frame(&mut t, ValueTag::Int);
         t.value_stack.push(msg);
@@ -280,7 +294,7 @@ vm_harness! {
 vm_harness! {
     #[kani::unwind(9)]
     fn c01_string_count_bytes() {
-        let mut t = mk_thread(vec![Instr::StringCountBytes(enc(T, 0), enc(T, 0)), Instr::Stop], vec![], vec![]);
+        let mut t = mk_thread(vec![norm(Instr::StringCountBytes(enc(T, 0), enc(T, 0))), Instr::Stop], vec![], vec![]);
         let b = sym_ascii3();
         let len: usize = kani::any();
         kani::assume(len <= 3);
